@@ -19,9 +19,11 @@ static void sb_ch(sb_t *s, char c) { sb_put(s, &c, 1); }
 #define NVAR 8
 static struct { char k[16]; char v[128]; int set; } vars[NVAR];
 static int dont_care;                      /* the input uses a construct whose value the statement leaves open */
+static int put_seen, store_uncertain;      /* a %put in an expansion that was cut at the limit may or may not have happened */
 static const char *ref_getvar(const char *k) { for (int i = 0; i < NVAR; i++) if (vars[i].set && !strcmp(vars[i].k, k)) return vars[i].v; return NULL; }
 static void ref_putvar(const char *k, const char *v)
 {
+    put_seen = 1;
     for (int i = 0; i < NVAR; i++) if (vars[i].set && !strcmp(vars[i].k, k)) { snprintf(vars[i].v, sizeof(vars[i].v), "%s", v); return; }
     for (int i = 0; i < NVAR; i++) if (!vars[i].set) { vars[i].set = 1; snprintf(vars[i].k, sizeof(vars[i].k), "%s", k); snprintf(vars[i].v, sizeof(vars[i].v), "%s", v); return; }
     dont_care = 1;
@@ -68,6 +70,29 @@ static void ref_builtin(const char *name, const char *rawargs, sb_t *o, int dept
     } else dont_care = 1;
     free(a.b);
 }
+#include <dirent.h>
+DIR *sim_opendir(const char *path);
+struct dirent *sim_readdir(DIR *d);
+int sim_closedir(DIR *d);
+static void ref_dirscan(const char *args, sb_t *o)
+{
+    /* every regular file of the directory, each name followed by a blank, in the order the directory lists them (the
+       simulated directory lists an unchanged directory in the same order every time, as a real one does) */
+    char w[4][128];
+    sb_t l = { 0 };
+    DIR *d;
+    struct dirent *de;
+    if (strpbrk(args, "$~%\\`'\"") || words(args, w) != 1) { dont_care = 1; return; }
+    d = sim_opendir(w[0]);
+    if (!d) { probe_hit("dirscan_no_directory"); return; }        /* no directory: the call yields nothing */
+    sb_put(&l, "", 0);
+    while ((de = sim_readdir(d))) if (de->d_type == DT_REG) { sb_put(&l, de->d_name, strlen(de->d_name)); sb_ch(&l, ' '); }
+    sim_closedir(d);
+    if (l.n >= CONFIG_BUFF - 1) { dont_care = 1; probe_hit("dirscan_listing_over_limit"); }    /* where a listing that does not fit is cut is not specified */
+    else probe_hit("dirscan_listing_modelled");
+    sb_put(o, l.b, l.n);
+    free(l.b);
+}
 static void ref_expand(const char *s, sb_t *o, int depth)
 {
     int in_single = 0, in_double = 0;
@@ -113,7 +138,7 @@ static void ref_expand(const char *s, sb_t *o, int depth)
                 while (*q && lvl) { if (*q == '(') lvl++; else if (*q == ')') lvl--; q++; }
                 if (lvl) { dont_care = 1; return; }
                 args = strndup(start, (size_t)(q - 1 - start));
-                if (k == 6) dont_care = 1;                          /* %dirscan: order of the listing is the directory's business */
+                if (k == 6) ref_dirscan(args, o);
                 else ref_builtin(bi[k], args, o, depth);
                 free(args);
                 p = q - 1;
@@ -142,6 +167,7 @@ static void one_pass(const plan_t *p, int pass)
 {
     int nres = 0;
     memset(vars, 0, sizeof(vars));
+    store_uncertain = 0;
     sa_set_fill(pass ? FILL_FF : (int)plan_get(p, "alloc.fill", FILL_A5));
     spifconf_init_subsystem();
     for (int i = 0; i < p->nops; i++) {
@@ -161,9 +187,11 @@ static void one_pass(const plan_t *p, int pass)
             sb_t want = { 0 };
             memcpy(b, o->s, n); b[n] = 0;
             for (size_t q = 0; q < n; q++) if (!b[q]) b[q] = '.';
-            dont_care = 0;
+            dont_care = 0; put_seen = 0;
             sb_put(&want, "", 0);
             { char *in = strdup(b); ref_expand(in, &want, 0); free(in); }
+            if (store_uncertain && strcasestr(b, "%get")) dont_care = 1;
+            if (want.n >= CONFIG_BUFF - 1 && put_seen) { store_uncertain = 1; probe_hit("put_in_an_expansion_cut_at_the_limit"); }
             paint_stack(pass ? 0xFF : 0x00, 2048);
             ret = (char *)spifconf_shell_expand((spif_charptr_t)b);
             if (ret) {
@@ -207,6 +235,7 @@ static void exec_c10(const plan_t *p)
     conf_reset_mirror();
     setenv("HOME", "/home/u", 1); setenv("V1", "val-one", 1); setenv("EMPTY", "", 1); setenv("LONG_name_9", "L", 1);
     for (int i = 0; i < MAXRES; i++) { free(pass_a[i]); pass_a[i] = NULL; }
+    conf_fill_dir(p);
     one_pass(p, 0);
     one_pass(p, 1);
 }
@@ -248,6 +277,7 @@ static void gen_piece(rng_t *r, int depth, int inside_args)
     else if (c < 99) ga("%%dirscan(/cfg/d)");
     else ga("$");
 }
+static int bigdir;
 static void gen_c10(plan_t *p, rng_t *r)
 {
     int nops = rng_range(r, 1, 12 * sim_tier_scale());
@@ -257,10 +287,21 @@ static void gen_c10(plan_t *p, rng_t *r)
     plan_knob(p, "alloc.reuse", rng_range(r, 0, 2));
     if (rng_chance(r, 1, 3)) { o = plan_op(p, 0, "env", 1, (long)rng_chance(r, 1, 2)); op_str(o, "HOME", 4); op_str2(o, "", 0); }
     if (rng_chance(r, 1, 3)) plan_op(p, 0, "builtin", 1, (long)rng_range(r, 1, 5));
+    if (rng_chance(r, 1, 10)) {
+        /* a directory whose listing is as long as the line buffer, give or take a few bytes */
+        static const int nls[] = { 255, 255, 254, 200, 128, 100 };
+        plan_knob(p, "dir.total", rng_chance(r, 1, 3) ? CONFIG_BUFF : rng_chance(r, 1, 8) ? 41000 : rng_range(r, CONFIG_BUFF - 6, CONFIG_BUFF + 6));
+        plan_knob(p, "dir.namelen", nls[rng_below(r, 6)]);
+        bigdir = 1;
+    } else bigdir = 0;
     for (int i = 0; i < nops; i++) {
         int pieces = rng_range(r, 1, 8);
         gvn = 0; gv[0] = 0;
-        if (rng_chance(r, 1, 12)) {
+        if (bigdir && rng_chance(r, 1, 2)) {
+            if (rng_chance(r, 1, 3)) ga("%s", rng_chance(r, 1, 2) ? "x " : "$V1");
+            ga("%%dirscan(/cfg/d)");
+            if (rng_chance(r, 1, 3)) ga(" tail");
+        } else if (rng_chance(r, 1, 12)) {
             /* push the result to and past the line-buffer limit */
             size_t pad = (size_t)rng_range(r, 20300, 20470);
             memset(gv, 'p', pad); gvn = pad; gv[gvn] = 0;
